@@ -34,7 +34,7 @@ type c09Anchors struct {
 	put               *ssa.Function // putClassAdToMessageWithOptions
 	byPriv, byWhite   *ssa.Function // the two filters
 	putSecret         *ssa.Function
-	inList            *ssa.Function
+	inList            *ssa.Function // message.isAttrInList when it exists (the membership test of EncryptedAttrs)
 	m, ad, cfg        *ssa.Parameter
 	w                 *wireAnchors
 	incBit, noPrivBit int64
@@ -47,8 +47,10 @@ func (c *Ctx) c09Anchors(rule string) *c09Anchors {
 	a.byPriv = c.needFn(rule, "message", "filterAttributesByPrivacy")
 	a.byWhite = c.needFn(rule, "message", "filterAttributesByWhitelist")
 	a.putSecret = c.needFn(rule, "message", "(*Message).putSecretExpr")
-	a.inList = c.needFn(rule, "message", "isAttrInList")
-	if !a.w.ok || a.put == nil || a.byPriv == nil || a.byWhite == nil || a.putSecret == nil || a.inList == nil {
+	if f := c.LookupFn("message", "isAttrInList"); f != nil && f.Blocks != nil {
+		a.inList = f // not named by the property: slices.Contains serves as well (see isMember)
+	}
+	if !a.w.ok || a.put == nil || a.byPriv == nil || a.byWhite == nil || a.putSecret == nil {
 		a.ok = false
 		return a
 	}
@@ -81,6 +83,18 @@ func (c *Ctx) c09Anchors(rule string) *c09Anchors {
 	a.incBit = bit("PutClassAdIncludePrivate")
 	a.noPrivBit = bit("PutClassAdNoPrivate")
 	return a
+}
+
+// isMember: the call is a membership test of a string list (the EncryptedAttrs test): message.isAttrInList, or
+// slices.Contains / slices.Index of the standard library.
+func (a *c09Anchors) isMember(call ssa.CallInstruction) bool {
+	if g := calleeFn(call); g != nil && g == a.inList {
+		return true
+	}
+	if o := calleeObj(call); o != nil && o.Pkg() != nil && o.Pkg().Path() == "slices" && o.Name() == "Contains" {
+		return true
+	}
+	return false
 }
 
 func c09IsNamedPtr(t types.Type, pkgSuffix, name string) bool {
@@ -140,13 +154,24 @@ func c09OrdinalKeys(calls []ssa.CallInstruction, name func(ssa.CallInstruction) 
 // ---------------------------------------------------------------------------
 // C09-R1: only filtered names are written
 
-// c09AdAccesses walks the backward slice of v inside fn (through phis, conversions, local arrays/cells and call
-// arguments) and returns the calls that take the ad as an argument, whether the ad itself flows into v, and
-// stops at sanitiser calls.
-func c09AdAccesses(fn *ssa.Function, v ssa.Value, ad ssa.Value, sanitiser func(*ssa.Call) bool) (accesses []*ssa.Call, rawAd bool) {
-	seen := map[ssa.Value]bool{}
-	var walk func(v ssa.Value, d int)
-	storesInto := func(addr ssa.Value, d int) {
+// c09Access is a call that takes the ad as an argument, in the frame it occurs in.
+type c09Access struct {
+	fr   *cxFrame
+	call *ssa.Call
+}
+
+// c09AdAccesses walks the backward slice of v (through phis, conversions, local arrays/cells and call
+// arguments; through the parameters of a helper to the caller's arguments; through the results of same-module
+// value helpers that are handed the ad) and returns the calls that take the ad as an argument, whether the ad
+// itself flows into v, and stops at sanitiser calls. isAd recognises the ad in any frame.
+func c09AdAccesses(fr *cxFrame, v ssa.Value, isAd func(*cxFrame, ssa.Value) bool, sanitiser func(ssa.CallInstruction) bool) (accesses []c09Access, rawAd bool) {
+	type key struct {
+		fn *ssa.Function
+		v  ssa.Value
+	}
+	seen := map[key]bool{}
+	var walk func(fr *cxFrame, v ssa.Value, d int)
+	storesInto := func(fr *cxFrame, addr ssa.Value, d int) {
 		var visitAddr func(a ssa.Value, dd int)
 		visitAddr = func(a ssa.Value, dd int) {
 			if dd > 4 {
@@ -160,7 +185,7 @@ func c09AdAccesses(fn *ssa.Function, v ssa.Value, ad ssa.Value, sanitiser func(*
 				switch x := r.(type) {
 				case *ssa.Store:
 					if x.Addr == a {
-						walk(x.Val, d+1)
+						walk(fr, x.Val, d+1)
 					}
 				case *ssa.IndexAddr:
 					if x.X == a {
@@ -175,20 +200,25 @@ func c09AdAccesses(fn *ssa.Function, v ssa.Value, ad ssa.Value, sanitiser func(*
 		}
 		visitAddr(addr, 0)
 	}
-	walk = func(v ssa.Value, d int) {
-		if v == nil || seen[v] || d > 80 {
+	walk = func(fr *cxFrame, v ssa.Value, d int) {
+		if v == nil || seen[key{fr.fn, v}] || d > 80 {
 			return
 		}
-		seen[v] = true
-		if stripConv(v) == ad {
+		seen[key{fr.fn, v}] = true
+		if isAd(fr, v) {
 			rawAd = true
 			return
 		}
 		switch x := v.(type) {
-		case *ssa.Const, *ssa.Parameter, *ssa.Global, *ssa.FreeVar, *ssa.Builtin, *ssa.Function:
+		case *ssa.Parameter, *ssa.FreeVar:
+			if r := fr.resolve(v); r.fr != fr {
+				walk(r.fr, r.v, d+1)
+			}
+			return
+		case *ssa.Const, *ssa.Global, *ssa.Builtin, *ssa.Function:
 			return
 		case *ssa.Alloc:
-			storesInto(x, d)
+			storesInto(fr, x, d)
 			return
 		case *ssa.Call:
 			if sanitiser(x) {
@@ -196,16 +226,25 @@ func c09AdAccesses(fn *ssa.Function, v ssa.Value, ad ssa.Value, sanitiser func(*
 			}
 			takesAd := false
 			for _, a := range callArgs(x) {
-				if stripConv(a) == ad {
+				if isAd(fr, a) {
 					takesAd = true
 				}
 			}
 			if takesAd {
-				accesses = append(accesses, x)
+				// a same-module value helper that is handed the ad: what it returns is what matters
+				if sub := fr.enter(x); sub != nil {
+					for _, ret := range cxReturns(sub.fn) {
+						for _, r := range ret.Results {
+							walk(sub, r, d+1)
+						}
+					}
+					return
+				}
+				accesses = append(accesses, c09Access{fr, x})
 			}
 			for _, a := range callArgs(x) {
-				if stripConv(a) != ad {
-					walk(a, d+1)
+				if !isAd(fr, a) {
+					walk(fr, a, d+1)
 				}
 			}
 			return
@@ -213,64 +252,99 @@ func c09AdAccesses(fn *ssa.Function, v ssa.Value, ad ssa.Value, sanitiser func(*
 		if in, ok := v.(ssa.Instruction); ok {
 			for _, op := range in.Operands(nil) {
 				if *op != nil {
-					walk(*op, d+1)
+					walk(fr, *op, d+1)
 				}
 			}
 		}
 	}
-	walk(v, 0)
+	walk(fr, v, 0)
 	return
+}
+
+// c09Sink is a message write of the serialiser: a call that receives the message, in its frame.
+type c09Sink struct {
+	fr   *cxFrame
+	call ssa.CallInstruction
 }
 
 func c09r1(c *Ctx) {
 	const rule = "C09-R1"
 	defer c08RuleTimer(rule)()
-	c.Doc(rule, "taint in putClassAdToMessageWithOptions: every value handed to a message write (PutInt/PutString/PutStringBytes/putSecretExpr/any call that receives the message) reaches the ad only through ad.Lookup(name) with name an element of the slice returned by filterAttributesByWhitelist/filterAttributesByPrivacy, or through EvaluateAttrString of the constants MyType/TargetType; the ad itself is never handed to a writer")
+	c.Doc(rule, "taint in putClassAdToMessageWithOptions (and the same-module helpers it hands both the message and the ad to): every value handed to a message write (PutInt/PutString/PutStringBytes/putSecretExpr/any call that receives the message) reaches the ad only through ad.Lookup(name) with name an element of the slice returned by filterAttributesByWhitelist/filterAttributesByPrivacy, or through EvaluateAttrString of the constants MyType/TargetType; the ad itself is never handed to a writer")
 	a := c.c09Anchors(rule)
 	if !a.ok {
 		return
 	}
 	fn := a.put
-	if len(fn.AnonFuncs) > 0 {
-		c.Undecided(rule, fnName(fn)+"#closures", "the serialiser contains closures; writes inside them are not followed", fn.Pos())
+	top := cxTop(fn)
+	isMsg := func(fr *cxFrame, v ssa.Value) bool {
+		r := fr.resolve(v)
+		return r.fr == top && r.v == ssa.Value(a.m)
 	}
-	sanitiser := func(call *ssa.Call) bool {
+	isAd := func(fr *cxFrame, v ssa.Value) bool {
+		r := fr.resolve(v)
+		return r.fr == top && r.v == ssa.Value(a.ad)
+	}
+	sanitiser := func(call ssa.CallInstruction) bool {
 		g := calleeFn(call)
 		return g != nil && (g == a.byPriv || g == a.byWhite)
 	}
-	// sinks: calls that receive the message (as receiver or argument)
-	var sinks []ssa.CallInstruction
-	allInstrs(fn, func(_ *ssa.BasicBlock, _ int, in ssa.Instruction) {
-		call, ok := in.(ssa.CallInstruction)
-		if !ok {
-			return
+	// sinks: calls that receive the message (as receiver or argument). A same-module helper that is handed the
+	// message together with the ad is not a sink itself: the writes inside it are (in its frame).
+	var sinks []c09Sink
+	var collect func(fr *cxFrame)
+	collect = func(fr *cxFrame) {
+		if len(fr.fn.AnonFuncs) > 0 {
+			c.Undecided(rule, fnName(fr.fn)+"#closures", "the serialiser contains closures; writes inside them are not followed", fr.fn.Pos())
 		}
-		for _, arg := range callArgs(call) {
-			if stripConv(arg) == ssa.Value(a.m) {
-				sinks = append(sinks, call)
+		allInstrs(fr.fn, func(_ *ssa.BasicBlock, _ int, in ssa.Instruction) {
+			if f := a.w.msgField(in); f == a.w.bufF {
+				// raw access to the message's buffer would bypass the writers
+				c.Undecided(rule, fnName(fr.fn)+"#raw-buffer", "the serialiser touches Message.buffer directly; such writes are not followed", in.Pos())
+			}
+			call, ok := in.(ssa.CallInstruction)
+			if !ok {
 				return
 			}
-		}
-		// raw access to the message's buffer would bypass the writers
-	})
-	allInstrs(fn, func(_ *ssa.BasicBlock, _ int, in ssa.Instruction) {
-		if f := a.w.msgField(in); f == a.w.bufF {
-			c.Undecided(rule, fnName(fn)+"#raw-buffer", "the serialiser touches Message.buffer directly; such writes are not followed", in.Pos())
-		}
-	})
-	keys := c09OrdinalKeys(sinks, func(cs ssa.CallInstruction) string {
+			gets := false
+			for _, arg := range callArgs(call) {
+				if isMsg(fr, arg) {
+					gets = true
+				}
+			}
+			if !gets {
+				return
+			}
+			// a same-module helper that is not one of the wire primitives is not a sink itself: the writes
+			// inside it are (in its frame; its parameters are traced back to the arguments handed in here)
+			if g := calleeFn(call); g != nil && !a.w.intWriters[g] && !a.w.strWriters[g] && !a.w.rawMsg[g] && !a.w.nbytes[g] && g != a.w.flush && g != a.putSecret {
+				if sub := fr.enter(call); sub != nil {
+					collect(sub)
+					return
+				}
+			}
+			sinks = append(sinks, c09Sink{fr, call})
+		})
+	}
+	collect(top)
+	var sinkCalls []ssa.CallInstruction
+	for _, sk := range sinks {
+		sinkCalls = append(sinkCalls, sk.call)
+	}
+	keys := c09OrdinalKeys(sinkCalls, func(cs ssa.CallInstruction) string {
 		if o := calleeObj(cs); o != nil {
 			return o.Name()
 		}
 		return "dynamic"
 	})
-	filteredElem := func(name ssa.Value) bool {
-		os := origins(fn, name)
+	keepSan := func(_ *cxFrame, call ssa.CallInstruction) bool { return sanitiser(call) }
+	filteredElem := func(fr *cxFrame, name ssa.Value) bool {
+		os := cxOrigins(fr, name, keepSan)
 		if len(os) == 0 {
 			return false
 		}
 		for _, o := range os {
-			ld, ok := o.(*ssa.UnOp)
+			ld, ok := o.v.(*ssa.UnOp)
 			if !ok || ld.Op != token.MUL {
 				return false
 			}
@@ -278,14 +352,13 @@ func c09r1(c *Ctx) {
 			if !ok {
 				return false
 			}
-			srcs := origins(fn, ia.X)
+			srcs := cxOrigins(o.fr, ia.X, keepSan)
 			if len(srcs) == 0 {
 				return false
 			}
 			for _, s := range srcs {
-				call, idx := originCall(s)
-				cc, isCall := call.(*ssa.Call)
-				if call == nil || idx != 0 || !isCall || !sanitiser(cc) {
+				call, idx := originCall(s.v)
+				if call == nil || idx != 0 || !sanitiser(call) {
 					return false
 				}
 			}
@@ -293,28 +366,30 @@ func c09r1(c *Ctx) {
 		return true
 	}
 	n := 0
-	for _, sink := range sinks {
+	for _, sk := range sinks {
+		sink := sk.call
 		n++
 		key := fnName(fn) + "#write:" + keys[sink]
 		bad := ""
 		for _, arg := range callArgs(sink) {
-			if stripConv(arg) == ssa.Value(a.m) {
+			if isMsg(sk.fr, arg) {
 				continue
 			}
-			acc, raw := c09AdAccesses(fn, arg, a.ad, sanitiser)
+			acc, raw := c09AdAccesses(sk.fr, arg, isAd, sanitiser)
 			if raw {
 				bad = "the ad itself is handed to this writer"
 			}
-			for _, call := range acc {
+			for _, ac := range acc {
+				call := ac.call
 				o := calleeObj(call)
 				args := call.Call.Args
 				switch {
 				case o != nil && o.Name() == "Lookup" && len(args) == 2:
-					if !filteredElem(args[1]) {
+					if !filteredElem(ac.fr, args[1]) {
 						bad = "it looks up an attribute name that is not an element of the filtered list (line " + c.Pos(call.Pos()) + ")"
 					}
 				case o != nil && o.Name() == "EvaluateAttrString" && len(args) == 2:
-					if s, ok := constString(args[1]); !ok || (s != "MyType" && s != "TargetType") {
+					if s, ok := constString(ac.fr.resolve(args[1]).v); !ok || (s != "MyType" && s != "TargetType") {
 						bad = "it evaluates an attribute other than MyType/TargetType (line " + c.Pos(call.Pos()) + ")"
 					}
 				default:
@@ -329,7 +404,7 @@ func c09r1(c *Ctx) {
 		c.Check(bad == "", rule, key, "its data reaches the ad only through the filtered attribute list or the two type names",
 			"a message write in the serialiser can carry unfiltered attribute data: "+bad, sink.Pos())
 	}
-	c.MinCount(rule, "message writes in the serialiser", n, 6)
+	c.MinCount(rule, "message writes in the serialiser", n, 2) // at least the count and one expression write
 }
 
 // ---------------------------------------------------------------------------
@@ -385,20 +460,26 @@ func c09r2(c *Ctx) {
 	if optF == nil || pvF == nil || majF == nil || minF == nil || patF == nil || bsv == nil {
 		return
 	}
-	// cut-off triple
+	// cut-off triple (the call may sit in a helper the serialiser calls; constants may arrive through its parameters)
 	nb := 0
-	for _, cs := range callsIn(fn, bsv.Object()) {
+	cxCallsDeep(cxTop(fn), func(_ *cxFrame, call ssa.CallInstruction) bool {
+		g := calleeFn(call)
+		return g != a.byPriv && g != a.byWhite && g != bsv
+	}, func(fr *cxFrame, cs ssa.CallInstruction) {
+		if calleeFn(cs) != bsv {
+			return
+		}
 		nb++
 		args := cs.Common().Args
 		okT := len(args) == 4
 		want := []int64{9, 9, 0}
 		for i := 1; okT && i < 4; i++ {
-			k, isC := constInt(args[i])
+			k, isC := constInt(fr.resolve(args[i]).v)
 			okT = isC && k == want[i-1]
 		}
 		c.Check(okT, rule, fnName(fn)+"#BuiltSinceVersion(9,9,0)", "the reserved-prefix cut-off is the constant version 9.9.0",
 			"the version cut-off for reserved-prefix private attributes is not the constant triple (9,9,0)", cs.Pos())
-	}
+	})
 	c.MinCount(rule, "BuiltSinceVersion call sites in the serialiser", nb, 1)
 
 	filterArgs := map[*ssa.Function][]int{}
@@ -451,17 +532,24 @@ func c09r2(c *Ctx) {
 						reached := 0
 						it := &ainterp{foldCallees: true}
 						it.oracle = func(_ *ssa.Function, v ssa.Value, _ []aval) (aval, bool) {
-							// never fold the filters or writers themselves
+							// never fold the filters or the writers themselves; other same-module callees (helpers that
+							// compute the decision, wrap the version test or wrap the filter calls) are explored in place
 							if call, ok := v.(*ssa.Call); ok {
-								if g := calleeFn(call); g != nil && g != bsv {
+								g := calleeFn(call)
+								if g == nil || filterArgs[g] != nil {
 									return avU, true
+								}
+								for _, arg := range callArgs(call) {
+									if a.w.isMessage(arg.Type()) {
+										return avU, true
+									}
 								}
 							}
 							return avU, false
 						}
 						it.at = func(f *ssa.Function, in ssa.Instruction, env *aenv, it *ainterp) string {
 							call, ok := in.(*ssa.Call)
-							if !ok || f != fn {
+							if !ok {
 								return ""
 							}
 							g := calleeFn(call)
@@ -522,6 +610,11 @@ func c09r3(c *Ctx) {
 		return
 	}
 	tables := map[*ssa.Function]string{}
+	// per filter, once decided: the privacy decision per (excludePrivate, excludePrivateV2, V1, V2, inList) and
+	// whether its predicates resolve and are applied to the appended value (a filter may hand its result to the
+	// other filter instead of repeating the test)
+	decided := map[*ssa.Function]map[[5]bool]string{}
+	predsOK := map[*ssa.Function]bool{}
 	n := 0
 	for _, fn := range []*ssa.Function{a.byPriv, a.byWhite} {
 		bp := c09BoolParams(fn)
@@ -565,17 +658,58 @@ func c09r3(c *Ctx) {
 			c.Undecided(rule, fnName(fn)+"#append", "the append is not inside a loop", app.Pos())
 			continue
 		}
-		// predicate calls: resolved kind and argument identity
+		// delegation: the filter returns what the other (already decided) filter makes of the list it appended to
+		var deleg *ssa.Call
+		{
+			ok := true
+			var cand *ssa.Call
+			for _, ret := range cxReturns(fn) {
+				for _, o := range origins(fn, ret.Results[0]) {
+					call, isCall := o.(*ssa.Call)
+					var g *ssa.Function
+					if isCall {
+						g = calleeFn(call)
+					}
+					if !isCall || g == nil || g == fn || (g != a.byPriv && g != a.byWhite) || decided[g] == nil || (cand != nil && cand != call) {
+						ok = false
+						continue
+					}
+					cand = call
+				}
+			}
+			if ok && cand != nil {
+				// the list handed over is the one the append builds (or still empty)
+				for _, o := range origins(fn, cand.Call.Args[0]) {
+					if o != ssa.Value(app) && !isNilConst(o) {
+						ok = false
+					}
+				}
+				if ok {
+					deleg = cand
+				}
+			}
+		}
+		// predicate calls: resolved kind and argument identity. The calls may sit in the filter itself or in a
+		// same-module helper it calls (a shared exclusion predicate); a helper's parameter is mapped back to the
+		// argument the filter passes.
 		kinds := map[string]int{}
 		argOK := true
-		allInstrs(fn, func(_ *ssa.BasicBlock, _ int, in ssa.Instruction) {
-			call, ok := in.(*ssa.Call)
-			if !ok {
-				return
-			}
+		top := cxTop(fn)
+		if deleg != nil && predsOK[calleeFn(deleg)] {
+			kinds["ANY"]++ // consulted by the filter the result is handed to, on the appended values
+		}
+		cxCallsDeep(top, func(_ *cxFrame, call ssa.CallInstruction) bool {
+			g := calleeFn(call)
+			return c09PredKind(g, 0) == "" && !a.isMember(call) && g != a.byPriv && g != a.byWhite
+		}, func(fr *cxFrame, call ssa.CallInstruction) {
 			if k := c09PredKind(calleeFn(call), 0); k != "" {
 				kinds[k]++
-				if len(call.Call.Args) != 1 || call.Call.Args[0] != elem {
+				args := call.Common().Args
+				if len(args) != 1 {
+					argOK = false
+					return
+				}
+				if r := fr.resolve(args[0]); r.fr != top || r.v != elem {
 					argOK = false
 				}
 			}
@@ -585,6 +719,12 @@ func c09r3(c *Ctx) {
 			"the filter does not consult predicates resolving to classad.IsPrivateAttributeV1 and IsPrivateAttributeV2 (a local re-implementation is not accepted: the earlier one matched case-sensitively)", fn.Pos())
 		c.Check(argOK, rule, fnName(fn)+"#predicate-argument", "the predicates are applied to the value that is appended",
 			"a privacy predicate is applied to a different value than the attribute name that is appended", fn.Pos())
+		predsOK[fn] = argOK && kinds["V1"]+kinds["ANY"] > 0 && kinds["V2"]+kinds["ANY"] > 0
+		thisTable := map[[5]bool]string{}
+		var delegBools []int
+		if deleg != nil {
+			delegBools = c09BoolParams(calleeFn(deleg))
+		}
 
 		var rowsOut []string
 		var bad []string
@@ -596,7 +736,7 @@ func c09r3(c *Ctx) {
 			}
 			params := make([]aval, len(fn.Params))
 			params[bp[0]], params[bp[1]] = avB(eP), avB(eP2)
-			it := &ainterp{}
+			it := &ainterp{foldCallees: true}
 			it.oracle = func(f *ssa.Function, v ssa.Value, _ []aval) (aval, bool) {
 				switch x := v.(type) {
 				case *ssa.Call:
@@ -609,13 +749,17 @@ func c09r3(c *Ctx) {
 					case "ANY":
 						return avB(v1 || v2), true
 					}
-					if g == a.inList {
+					if a.isMember(x) {
 						return avB(inl), true
 					}
 					if o := calleeObj(x); o != nil && o.Name() == "Lookup" && o.Pkg() != nil && strings.HasSuffix(o.Pkg().Path(), classadPkgSuffix) {
 						return avT(avU, avB(exists)), true
 					}
-					return avU, true
+					if g == a.byPriv || g == a.byWhite {
+						return avU, true // the other filter: its own table is used (see deleg)
+					}
+					// same-module helpers (an extracted exclusion predicate) are explored in place
+					return avU, false
 				case *ssa.Lookup:
 					if x.CommaOk {
 						return avT(avB(white), avB(white)), true
@@ -624,9 +768,14 @@ func c09r3(c *Ctx) {
 				}
 				return avU, false
 			}
-			it.at = func(f *ssa.Function, in ssa.Instruction, _ *aenv, _ *ainterp) string {
+			var dP, dP2 aval
+			it.at = func(f *ssa.Function, in ssa.Instruction, env *aenv, it *ainterp) string {
 				if in == ssa.Instruction(app) {
 					return "kept"
+				}
+				if deleg != nil && in == ssa.Instruction(deleg) && len(delegBools) == 2 {
+					dP, dP2 = it.eval(f, deleg.Call.Args[delegBools[0]], env), it.eval(f, deleg.Call.Args[delegBools[1]], env)
+					return "handed-over"
 				}
 				return ""
 			}
@@ -651,6 +800,22 @@ func c09r3(c *Ctx) {
 				got = "kept"
 			default:
 				got = "dropped"
+			}
+			if deleg != nil && got == "kept" {
+				// what this filter lets through is then decided by the filter it hands the list to
+				if dP.K != avBool || dP2.K != avBool {
+					und = "cannot fold the privacy arguments handed to " + fnName(calleeFn(deleg)) + " for row " + row
+					continue
+				}
+				d, ok := decided[calleeFn(deleg)][[5]bool{dP.B, dP2.B, v1, v2, inl}]
+				if !ok {
+					und = "no decision of " + fnName(calleeFn(deleg)) + " for row " + row
+					continue
+				}
+				got = d
+			}
+			if white && exists {
+				thisTable[[5]bool{eP, eP2, v1, v2, inl}] = got
 			}
 			private := (eP && (v1 || v2)) || (eP2 && v2)
 			want := "kept"
@@ -679,6 +844,9 @@ func c09r3(c *Ctx) {
 			c.Ok(rule, key, "keep/drop decision equals the stated predicate on every row", app.Pos())
 		}
 		tables[fn] = strings.Join(rowsOut, ";")
+		if und == "" {
+			decided[fn] = thisTable
+		}
 	}
 	if len(tables) == 2 {
 		c.Check(tables[a.byPriv] == tables[a.byWhite], rule, "filters-agree", "both filters have the same privacy table",
@@ -916,13 +1084,32 @@ func c09r5(c *Ctx) {
 	w := a.w
 	fn := a.putSecret
 	n := 0
-	var prep, rest, flushes, markerPut, secretPut []ssa.CallInstruction
+	var prep, rest, flushes, secretPut []ssa.CallInstruction
 	var exprParam ssa.Value
 	for _, p := range fn.Params {
 		if c08IsStringType(p.Type()) {
 			exprParam = p
 		}
 	}
+	isMarkerPut := func(in ssa.Instruction) bool {
+		call, ok := in.(ssa.CallInstruction)
+		if !ok {
+			return false
+		}
+		g := calleeFn(call)
+		if g == nil || !w.strWriters[g] {
+			return false
+		}
+		args := call.Common().Args
+		return len(args) > 0 && w.isMarkerConst(args[len(args)-1])
+	}
+	isFlush := func(in ssa.Instruction) bool {
+		call, ok := in.(ssa.CallInstruction)
+		return ok && calleeFn(call) == w.flush
+	}
+	// no-toggle edges: the stream does not implement the toggle (the receiver of a Prepare/Restore call is nil,
+	// or the type assertion that produced it failed)
+	var noToggle []Edge
 	allInstrs(fn, func(_ *ssa.BasicBlock, _ int, in ssa.Instruction) {
 		call, ok := in.(ssa.CallInstruction)
 		if !ok {
@@ -931,6 +1118,7 @@ func c09r5(c *Ctx) {
 		switch w.streamCall(call) {
 		case "PREP":
 			prep = append(prep, call)
+			noToggle = append(noToggle, c09NoToggleEdges(fn, call)...)
 			return
 		case "REST":
 			rest = append(rest, call)
@@ -943,30 +1131,49 @@ func c09r5(c *Ctx) {
 		case g != nil && w.strWriters[g]:
 			args := call.Common().Args
 			last := args[len(args)-1]
-			if w.isMarkerConst(last) {
-				markerPut = append(markerPut, call)
-			} else if exprParam != nil && mentionsValue(last, exprParam) {
+			if !w.isMarkerConst(last) && exprParam != nil && mentionsValue(last, exprParam) {
 				secretPut = append(secretPut, call)
+			}
+		default:
+			// a same-module helper or closure that performs the toggle call on every path (unless the stream has
+			// no toggle) stands for it
+			if g != nil && g != fn {
+				switch {
+				case c09Performs(w, g, "REST", cxDepth, map[*ssa.Function]bool{fn: true}):
+					rest = append(rest, call)
+				case c09Performs(w, g, "PREP", cxDepth, map[*ssa.Function]bool{fn: true}):
+					prep = append(prep, call)
+				}
 			}
 		}
 	})
-	if len(prep) == 0 || len(rest) == 0 || len(flushes) == 0 || len(markerPut) == 0 || len(secretPut) == 0 {
-		c.Violate(rule, fnName(fn)+"#shape", fmt.Sprintf("putSecretExpr lacks a part of the bracket: Prepare=%d Restore=%d FlushFrame=%d marker write=%d secret write=%d", len(prep), len(rest), len(flushes), len(markerPut), len(secretPut)), fn.Pos())
+	// the marker write and the flush of the cleartext frame may sit in an error-returning helper (followed by
+	// c.satisfyingCuts: the helper's nil-error edge counts when every success path inside passes the write)
+	markerCuts := c.c09SatisfyingCuts(fn, isMarkerPut, InlineDepth, nil)
+	nMarker := len(markerCuts.Edges) + len(markerCuts.Instrs)
+	if len(prep) == 0 || len(rest) == 0 || len(secretPut) == 0 || nMarker == 0 {
+		c.Violate(rule, fnName(fn)+"#shape", fmt.Sprintf("putSecretExpr lacks a part of the bracket: Prepare=%d Restore=%d FlushFrame=%d marker write=%d secret write=%d", len(prep), len(rest), len(flushes), nMarker, len(secretPut)), fn.Pos())
 		return
 	}
+	// Restore may be called explicitly or registered with defer. restRun: where it executes (the call, or every
+	// RunDefers for a deferred one); restReg: what guarantees it on the way out (the call, or the registration).
+	var restRun, restReg []ssa.Instruction
 	for _, d := range rest {
 		if _, isDefer := d.(*ssa.Defer); isDefer {
-			c.Undecided(rule, fnName(fn)+"#shape", "Restore is deferred; this rule follows only the explicit form (rewrite the rule's bracket clause for defer)", d.Pos())
+			restReg = append(restReg, d)
+			allInstrs(fn, func(_ *ssa.BasicBlock, _ int, in ssa.Instruction) {
+				if rd, ok := in.(*ssa.RunDefers); ok {
+					restRun = append(restRun, rd)
+				}
+			})
+			continue
+		}
+		if _, isGo := d.(*ssa.Go); isGo {
+			c.Undecided(rule, fnName(fn)+"#shape", "Restore is started as a goroutine", d.Pos())
 			return
 		}
-	}
-	succEdges := func(calls []ssa.CallInstruction) []Edge {
-		var out []Edge
-		for _, cs := range calls {
-			s, _, _ := callErrEdges(fn, cs.Value())
-			out = append(out, s...)
-		}
-		return out
+		restRun = append(restRun, d)
+		restReg = append(restReg, d)
 	}
 	failEdges := func(calls []ssa.CallInstruction) []Edge {
 		var out []Edge
@@ -983,38 +1190,29 @@ func c09r5(c *Ctx) {
 		}
 		return out
 	}
-	// flushes before / after the secret write
-	var preFlush, postFlush []ssa.CallInstruction
+	// flushes after the secret write (those from which the secret write is no longer reachable)
+	var postFlush []ssa.CallInstruction
 	for _, f := range flushes {
-		if findPath(after(f), Target{Instr: secretPut[0]}, nil) != nil {
-			preFlush = append(preFlush, f)
-		} else {
+		if findPath(after(f), Target{Instr: secretPut[0]}, nil) == nil {
 			postFlush = append(postFlush, f)
 		}
 	}
-	// no-toggle edges: the stream does not implement the toggle
-	var noToggle []Edge
-	for _, p := range prep {
-		if p.Common().IsInvoke() {
-			nilE, _ := nilEdges(fn, p.Common().Value)
-			noToggle = append(noToggle, nilE...)
-			for _, o := range origins(fn, p.Common().Value) {
-				if ex, ok := o.(*ssa.Extract); ok {
-					if ta, ok := ex.Tuple.(*ssa.TypeAssert); ok && ta.CommaOk {
-						if okv := extractN(ta, 1); okv != nil {
-							_, f := boolEdges(fn, okv)
-							noToggle = append(noToggle, f...)
-						}
-					}
-				}
-			}
+	// successful flushes of the cleartext frame before the secret: every FlushFrame (in putSecretExpr or in an
+	// error-returning helper) from which the secret write is still reachable
+	preFlushCuts := c.c09SatisfyingCuts(fn, func(in ssa.Instruction) bool {
+		if !isFlush(in) {
+			return false
 		}
-	}
+		if in.Parent() == fn {
+			return findPath(after(in), Target{Instr: secretPut[0]}, nil) != nil
+		}
+		return true
+	}, InlineDepth, nil)
 	for _, p := range prep {
 		n++
-		c.mustPassInstr(rule, fnName(fn)+"#marker-before-Prepare", fn, p, newCuts().AddEdges(succEdges(markerPut)...), "a successful write of the SecretMarker")
+		c.mustPassInstr(rule, fnName(fn)+"#marker-before-Prepare", fn, p, markerCuts, "a successful write of the SecretMarker")
 		n++
-		c.mustPassInstr(rule, fnName(fn)+"#flush-before-Prepare", fn, p, newCuts().AddEdges(succEdges(preFlush)...), "a successful FlushFrame of everything buffered in the clear")
+		c.mustPassInstr(rule, fnName(fn)+"#flush-before-Prepare", fn, p, preFlushCuts, "a successful FlushFrame of everything buffered in the clear")
 	}
 	for _, sp := range secretPut {
 		n++
@@ -1026,7 +1224,7 @@ func c09r5(c *Ctx) {
 			continue
 		}
 		var wit []*ssa.BasicBlock
-		for _, r := range rest {
+		for _, r := range restRun {
 			if p := findPath(after(sp), Target{Instr: r}, cuts); p != nil {
 				wit = p
 			}
@@ -1041,7 +1239,7 @@ func c09r5(c *Ctx) {
 		var wit2 []*ssa.BasicBlock
 		for _, pf := range postFlush {
 			if p := findPath(after(sp), Target{Instr: pf}, nil); p != nil {
-				if q := findPath(after(sp), Target{Instr: pf}, newCuts().AddInstrs(instrs(rest)...)); q == nil {
+				if q := findPath(after(sp), Target{Instr: pf}, newCuts().AddInstrs(restRun...)); q == nil {
 					wit2 = p
 				}
 			}
@@ -1050,12 +1248,12 @@ func c09r5(c *Ctx) {
 		c.Check(wit2 == nil, rule, fnName(fn)+"#flush-before-Restore", "the flush of the secret frame is reachable without passing Restore",
 			"the FlushFrame that emits the secret comes only after RestoreCryptoAfterSecret: the secret frame is sent in the clear", sp.Pos())
 	}
-	// Restore on every exit after Prepare
+	// Restore on every exit after Prepare (an explicit call on the path, or a registered defer)
 	for _, p := range prep {
 		var wit []*ssa.BasicBlock
 		for _, t := range c.returnsOf(fn) {
 			// a path that invoked Prepare on the toggle cannot later take an edge on which that same value is nil
-			if pth := findPath(after(p), t.Target(), newCuts().AddInstrs(instrs(rest)...).AddEdges(noToggle...)); pth != nil {
+			if pth := findPath(after(p), t.Target(), newCuts().AddInstrs(restReg...).AddEdges(noToggle...)); pth != nil {
 				wit = pth
 			}
 		}
@@ -1068,152 +1266,468 @@ func c09r5(c *Ctx) {
 	}
 
 	// ---- the caller
+	n += c.c09SecretBranch(rule, a)
+	c.MinCount(rule, "bracket obligations", n, 10)
+}
+
+// c09SecretBranch decides the serialiser's side of C09-R5: the plain write of an attribute expression happens
+// only when the attribute is not private or crypto-for-secret is a no-op, and a private attribute on a keyed,
+// non-encrypting stream goes through putSecretExpr. The tests, the guard value and the two writes are followed
+// into same-module helpers (boolean predicates, value helpers, a helper holding the loop body) and through
+// local booleans. It returns the number of obligations recorded.
+func (c *Ctx) c09SecretBranch(rule string, a *c09Anchors) int {
+	w := a.w
 	put := a.put
-	var secretCalls, plainPuts []ssa.CallInstruction
+	top := cxTop(put)
+	n := 0
+	isMsg := func(fr *cxFrame, v ssa.Value) bool {
+		r := fr.resolve(v)
+		return r.fr == top && r.v == ssa.Value(a.m)
+	}
 	cyc := c08CyclicBlocks(put)
-	allInstrs(put, func(b *ssa.BasicBlock, _ int, in ssa.Instruction) {
-		call, ok := in.(*ssa.Call)
-		if !ok || !cyc[b] {
+	// the two writes of the per-attribute loop, in the serialiser or in a helper called from its loop
+	type site struct {
+		fr   *cxFrame
+		call ssa.CallInstruction
+	}
+	var secretCalls, plainPuts []site
+	getsMsg := func(fr *cxFrame, call ssa.CallInstruction) bool {
+		for _, arg := range callArgs(call) {
+			if isMsg(fr, arg) {
+				return true
+			}
+		}
+		return false
+	}
+	cxCallsDeep(top, func(fr *cxFrame, call ssa.CallInstruction) bool {
+		if fr == top && !cyc[call.Block()] {
+			return false
+		}
+		g := calleeFn(call)
+		if g == nil || g == a.putSecret || w.strWriters[g] || w.intWriters[g] || g == w.flush {
+			return false
+		}
+		return getsMsg(fr, call)
+	}, func(fr *cxFrame, call ssa.CallInstruction) {
+		if fr == top && !cyc[call.Block()] {
+			return
+		}
+		if _, isCall := call.(*ssa.Call); !isCall || !getsMsg(fr, call) {
 			return
 		}
 		g := calleeFn(call)
 		switch {
 		case g == a.putSecret:
-			secretCalls = append(secretCalls, call)
+			secretCalls = append(secretCalls, site{fr, call})
 		case g != nil && w.strWriters[g]:
-			plainPuts = append(plainPuts, call)
+			plainPuts = append(plainPuts, site{fr, call})
 		}
 	})
 	if len(secretCalls) == 0 || len(plainPuts) == 0 {
 		c.Violate(rule, fnName(put)+"#secret-branch", "the per-attribute loop of the serialiser has no putSecretExpr branch or no plain write", put.Pos())
-		return
+		return n
 	}
-	// the private predicate tests in the loop
-	var privTrue, privFalse []Edge
-	for _, b := range put.Blocks {
-		ifi := blockIf(b)
-		if ifi == nil || !cyc[b] {
-			continue
+	// encryptSecrets: a value that is !CryptoForSecretIsNoop() of the message's own stream (false when the stream
+	// has no toggle). encState: 0 = not such a value, 1 = exactly that, 2 = a no-op test of something else.
+	encMemo := map[cxVal]int{}
+	encState := func(fr *cxFrame, v ssa.Value) int {
+		k := cxVal{fr, v}
+		if st, ok := encMemo[k]; ok {
+			return st
 		}
-		at := condAtom(ifi.Cond)
-		if at.Op != token.ILLEGAL {
-			continue
-		}
-		call, ok := at.X.(*ssa.Call)
-		if !ok || c09PredKind(calleeFn(call), 0) != "ANY" {
-			continue
-		}
-		t, f := Edge{b, 0}, Edge{b, 1}
-		if at.Neg {
-			t, f = f, t
-		}
-		privTrue = append(privTrue, t)
-		privFalse = append(privFalse, f)
-	}
-	n++
-	if !c.Check(len(privTrue) > 0, rule, fnName(put)+"#private-test", "the loop branches on a predicate resolving to classad.IsPrivateAttribute",
-		"the per-attribute loop does not branch on a predicate resolving to classad.IsPrivateAttribute", put.Pos()) {
-		return
-	}
-	// encryptSecrets: the boolean that guards the secret branch
-	var encFalse []Edge
-	encOK := false
-	for _, b := range put.Blocks {
-		ifi := blockIf(b)
-		if ifi == nil || !cyc[b] {
-			continue
-		}
-		at := condAtom(ifi.Cond)
-		if at.Op != token.ILLEGAL {
-			continue
-		}
-		os := origins(put, at.X)
-		isEnc := false
-		allGood := len(os) > 0
+		encMemo[k] = 0
+		os := cxOrigins(fr, v, nil)
+		st := 0
 		for _, o := range os {
-			if k, isC := constBool(o); isC && !k {
+			if kb, isC := constBool(o.v); isC && !kb {
 				continue // no toggle available: false
 			}
-			u, ok := o.(*ssa.UnOp)
+			u, ok := o.v.(*ssa.UnOp)
 			if !ok || u.Op != token.NOT {
-				allGood = false
-				continue
+				st = 0
+				break
 			}
 			call, ok := u.X.(*ssa.Call)
 			if !ok || w.streamCall(call) != "NOOP" {
-				allGood = false
-				continue
+				st = 0
+				break
 			}
 			// receiver: the message's own stream
 			recvOK := false
-			for _, ro := range origins(put, call.Call.Value) {
-				if ex, ok := ro.(*ssa.Extract); ok {
+			for _, ro := range cxOrigins(o.fr, call.Call.Value, nil) {
+				if ex, ok := ro.v.(*ssa.Extract); ok {
 					if ta, ok := ex.Tuple.(*ssa.TypeAssert); ok {
-						if b, f, ok := fieldRead(ta.X); ok && f == w.strF && b == ssa.Value(a.m) {
+						if b, f, ok := fieldRead(ta.X); ok && f == w.strF && isMsg(ro.fr, b) {
 							recvOK = true
 						}
 					}
 				}
 			}
 			if !recvOK {
-				allGood = false
+				st = 2
+				break
 			}
-			isEnc = true
+			st = 1
 		}
-		if isEnc {
-			encOK = allGood
-			f := Edge{b, 1}
-			if at.Neg {
-				f = Edge{b, 0}
+		encMemo[k] = st
+		return st
+	}
+	nPriv, nEnc, encBad := 0, 0, false
+	atom := func(fr *cxFrame, at Atom) (onTrue, onFalse bool) {
+		if at.Op != token.ILLEGAL || at.X == nil {
+			return false, false
+		}
+		if call, ok := at.X.(*ssa.Call); ok && c09PredKind(calleeFn(call), 0) == "ANY" {
+			nPriv++
+			return at.Neg, !at.Neg // not private on the false edge
+		}
+		if _, isCall := at.X.(*ssa.Call); isCall {
+			if sub := fr.enter(at.X.(*ssa.Call)); sub != nil && sub.fn.Signature.Results().Len() == 1 {
+				// a boolean helper: its returned conditions are classified inside it; a helper that only
+				// returns the guard value itself is the guard
+				if encState(fr, at.X) == 0 {
+					return false, false
+				}
 			}
-			encFalse = append(encFalse, f)
+		}
+		switch encState(fr, at.X) {
+		case 1:
+			nEnc++
+			return at.Neg, !at.Neg // crypto-for-secret is a no-op on the false edge
+		case 2:
+			encBad = true
+		}
+		return false, false
+	}
+	factCuts := map[*cxFrame]*Cuts{}
+	cutsOf := func(fr *cxFrame) *Cuts {
+		if cu, ok := factCuts[fr]; ok {
+			return cu
+		}
+		cu := c.cxFactCuts(fr, atom, cxDepth)
+		factCuts[fr] = cu
+		return cu
+	}
+	topCuts := cutsOf(top)
+	for _, pp := range plainPuts {
+		for fr := pp.fr; fr != nil; fr = fr.up {
+			cutsOf(fr)
 		}
 	}
 	n++
-	c.Check(encOK && len(encFalse) > 0, rule, fnName(put)+"#encryptSecrets", "the secret branch is guarded by !CryptoForSecretIsNoop() of the message's own stream",
+	if !c.Check(nPriv > 0, rule, fnName(put)+"#private-test", "the loop branches on a predicate resolving to classad.IsPrivateAttribute",
+		"the per-attribute loop does not branch on a predicate resolving to classad.IsPrivateAttribute", put.Pos()) {
+		return n
+	}
+	n++
+	c.Check(nEnc > 0 && !encBad, rule, fnName(put)+"#encryptSecrets", "the secret branch is guarded by !CryptoForSecretIsNoop() of the message's own stream",
 		"the guard of the secret branch is not exactly !CryptoForSecretIsNoop() of the message's own stream (false only when the stream has no toggle)", put.Pos())
-	loop := c08LoopOf(put, plainPuts[0].Block())
-	backCuts := newCuts()
+	// one iteration of the serialiser's loop: back edges and loop exits are cut, so a fact established in an
+	// earlier iteration does not count for a later one
+	loopAnchor := plainPuts[0].call
+	for fr := plainPuts[0].fr; fr.up != nil; fr = fr.up {
+		loopAnchor = fr.call
+	}
+	loop := c08LoopOf(put, loopAnchor.Block())
+	if loop == nil {
+		c.Undecided(rule, fnName(put)+"#secret-branch", "the plain write of an attribute expression is not inside a loop of the serialiser", loopAnchor.Pos())
+		return n
+	}
+	var head *ssa.BasicBlock
 	for b := range loop {
-		for i, s := range b.Succs {
-			if !loop[s] {
-				backCuts.AddEdges(Edge{b, i})
-				continue
+		for _, p := range b.Preds {
+			if !loop[p] {
+				head = b
 			}
-			for _, p := range s.Preds {
-				if !loop[p] { // s is the loop head: edges into it from inside are back edges
-					backCuts.AddEdges(Edge{b, i})
+		}
+	}
+	if head == nil {
+		c.Undecided(rule, fnName(put)+"#secret-branch", "cannot find the head of the per-attribute loop", loopAnchor.Pos())
+		return n
+	}
+	iterCuts := func(extra ...ssa.Instruction) *Cuts {
+		cu := newCuts().AddInstrs(extra...)
+		for k := range topCuts.Edges {
+			cu.AddEdges(k)
+		}
+		for k := range topCuts.Via {
+			cu.Via[k] = true
+		}
+		for b := range loop {
+			for i, s := range b.Succs {
+				if !loop[s] || s == head {
+					cu.AddEdges(Edge{b, i})
+				}
+			}
+		}
+		return cu
+	}
+	withInstrs := func(cu *Cuts, extra ...ssa.Instruction) *Cuts {
+		out := newCuts().AddInstrs(extra...)
+		for k := range cu.Edges {
+			out.AddEdges(k)
+		}
+		for k := range cu.Via {
+			out.Via[k] = true
+		}
+		return out
+	}
+	iterStarts := func() []Point {
+		var out []Point
+		for i, s := range head.Succs {
+			if loop[s] && s != head && len(s.Instrs) > 0 && !topCuts.Edges[Edge{head, i}] {
+				out = append(out, Point{s, 0})
+			}
+		}
+		return out
+	}
+	// (1) the plain write is reached, within one iteration, only behind an edge on which the attribute is not
+	// private or crypto-for-secret is a no-op -- in the function holding the write or in a caller on the chain
+	for _, pp := range plainPuts {
+		key := fnName(put) + "#plain-write-only-for-non-secret"
+		var wit []*ssa.BasicBlock
+		guarded := false
+		var in ssa.Instruction = pp.call
+		for fr := pp.fr; fr != nil && !guarded; fr = fr.up {
+			var p []*ssa.BasicBlock
+			if fr == top {
+				for _, st := range iterStarts() {
+					if q := findPath(st, Target{Instr: in}, iterCuts()); q != nil {
+						p = q
+					}
+				}
+			} else {
+				p = findPath(entryPoint(fr.fn), Target{Instr: in}, cutsOf(fr))
+			}
+			if p == nil {
+				guarded = true
+			} else if wit == nil || fr == top {
+				wit = p
+			}
+			if fr.call != nil {
+				in = fr.call
+			}
+		}
+		n++
+		if guarded {
+			c.Ok(rule, key, "every path to it within one iteration passes the edge on which crypto-for-secret is a no-op or the edge on which the attribute is not private", pp.call.Pos())
+		} else {
+			c.Violate(rule, key, "reachable without passing the edge on which crypto-for-secret is a no-op or the edge on which the attribute is not private: a private attribute can reach the plain PutString although crypto-for-secret is available, its value is sent in the clear", pp.call.Pos(), c.describePath(wit)...)
+		}
+	}
+	// (2) and never from the side on which the attribute is known private without putSecretExpr (or the edge on
+	// which crypto-for-secret is a no-op) in between, within the same iteration. The "private" side is the edge
+	// opposite to each edge that establishes "not private" (directly, through a helper or a local boolean).
+	privAtom := func(fr *cxFrame, at Atom) (onTrue, onFalse bool) {
+		if at.Op != token.ILLEGAL || at.X == nil {
+			return false, false
+		}
+		if call, ok := at.X.(*ssa.Call); ok && c09PredKind(calleeFn(call), 0) == "ANY" {
+			return at.Neg, !at.Neg
+		}
+		return false, false
+	}
+	// instrAt: the instruction of frame fr through which site s is reached (s.call itself, or the call that leads to it)
+	instrAt := func(s site, fr *cxFrame) ssa.Instruction {
+		var in ssa.Instruction = s.call
+		for f := s.fr; f != nil; f = f.up {
+			if f == fr {
+				return in
+			}
+			if f.call != nil {
+				in = f.call
+			}
+		}
+		return nil
+	}
+	for _, pp := range plainPuts {
+		var wit []*ssa.BasicBlock
+		nNeg := 0
+		for fr := pp.fr; fr != nil; fr = fr.up {
+			target := instrAt(pp, fr)
+			var sc []ssa.Instruction
+			for _, s := range secretCalls {
+				if in := instrAt(s, fr); in != nil {
+					sc = append(sc, in)
+				}
+			}
+			// when one helper call leads to both writes the choice is made inside the helper from the values
+			// handed in; obligation (1) decides it there
+			sameInstr := false
+			for _, in := range sc {
+				if in == target {
+					sameInstr = true
+				}
+			}
+			var cu *Cuts
+			if fr == top {
+				cu = iterCuts(sc...)
+			} else {
+				cu = withInstrs(cutsOf(fr), sc...)
+			}
+			pc := c.cxFactCuts(fr, privAtom, cxDepth)
+			// the "known private" side: the successor opposite to each edge that establishes "not private"
+			type negStart struct {
+				from, pred *ssa.BasicBlock
+				succ       int // the successor taken when the attribute is private
+			}
+			var neg []negStart
+			for e := range pc.Edges {
+				neg = append(neg, negStart{e.From, nil, 1 - e.Succ})
+			}
+			for v := range pc.Via {
+				neg = append(neg, negStart{v.From, v.Pred, 1 - v.Succ})
+			}
+			for _, st := range neg {
+				if len(st.from.Succs) != 2 || len(st.from.Instrs) == 0 || (fr == top && !loop[st.from]) {
+					continue
+				}
+				nNeg++
+				if sameInstr {
+					continue
+				}
+				// start at the branch itself (arriving through the predecessor that carries the fact for a local
+				// boolean) so that the search knows which way it came
+				cu2 := withInstrs(cu)
+				start := Point{st.from, len(st.from.Instrs) - 1}
+				if st.pred != nil {
+					if len(st.pred.Instrs) == 0 {
+						continue
+					}
+					start = Point{st.pred, len(st.pred.Instrs) - 1}
+					for i, sx := range st.pred.Succs {
+						if sx != st.from {
+							cu2.AddEdges(Edge{st.pred, i})
+						}
+					}
+					cu2.AddVia(st.pred, Edge{st.from, 1 - st.succ})
+				} else {
+					cu2.AddEdges(Edge{st.from, 1 - st.succ})
+				}
+				if p := findPath(start, Target{Instr: target}, cu2); p != nil {
+					wit = p
+				}
+			}
+		}
+		n++
+		key := fnName(put) + "#private=>putSecretExpr"
+		switch {
+		case wit != nil:
+			c.Violate(rule, key, "a private attribute can reach the plain PutString although crypto-for-secret is available: its value is sent in the clear", pp.call.Pos(), c.describePath(wit)...)
+		case nNeg == 0:
+			c.Undecided(rule, key, "cannot locate the edge on which the attribute is known private", pp.call.Pos())
+		default:
+			c.Ok(rule, key, "a private attribute on a keyed, non-encrypting stream always takes the putSecretExpr branch", pp.call.Pos())
+		}
+	}
+	return n
+}
+
+// c09NilEdges is nilEdges with one more alias rule: two loads of the same cell (a local captured by a closure, a
+// free variable) carry the same value when the cell is stored to at most once.
+func c09NilEdges(fn *ssa.Function, v ssa.Value) (nilE, nonNilE []Edge) {
+	nilE, nonNilE = nilEdges(fn, v)
+	ld, ok := v.(*ssa.UnOp)
+	if !ok || ld.Op != token.MUL {
+		return
+	}
+	cell := ld.X
+	switch cell.(type) {
+	case *ssa.Alloc, *ssa.FreeVar:
+	default:
+		return
+	}
+	stores := 0
+	var sibs []ssa.Value
+	if refs := cell.Referrers(); refs != nil {
+		for _, r := range *refs {
+			switch x := r.(type) {
+			case *ssa.Store:
+				if x.Addr == cell {
+					stores++
+				}
+			case *ssa.UnOp:
+				if x.Op == token.MUL && x.X == cell && x != ld {
+					sibs = append(sibs, x)
 				}
 			}
 		}
 	}
-	for _, pp := range plainPuts {
-		key := fnName(put) + "#plain-write-only-for-non-secret"
-		cuts := newCuts().AddEdges(encFalse...).AddEdges(privFalse...)
-		n++
-		c.mustPassInstr(rule, key, put, pp, cuts, "the edge on which crypto-for-secret is a no-op or the edge on which the attribute is not private")
-		// and never from the private-true edge within the same iteration
-		var wit []*ssa.BasicBlock
-		for _, e := range privTrue {
-			cu := newCuts().AddInstrs(instrs(secretCalls)...)
-			for k := range backCuts.Edges {
-				cu.AddEdges(k)
+	if stores > 1 {
+		return
+	}
+	for _, sv := range sibs {
+		n, nn := nilEdges(fn, sv)
+		nilE, nonNilE = append(nilE, n...), append(nonNilE, nn...)
+	}
+	return
+}
+
+// c09NoToggleEdges: the edges of fn on which the receiver of the interface call is nil or the type assertion
+// that produced it reported false.
+func c09NoToggleEdges(fn *ssa.Function, call ssa.CallInstruction) []Edge {
+	if !call.Common().IsInvoke() {
+		return nil
+	}
+	recv := call.Common().Value
+	out, _ := c09NilEdges(fn, recv)
+	srcs := origins(fn, recv)
+	for _, o := range srcs {
+		if ex, ok := o.(*ssa.Extract); ok {
+			if ta, ok := ex.Tuple.(*ssa.TypeAssert); ok && ta.CommaOk {
+				if okv := extractN(ta, 1); okv != nil {
+					_, f := boolEdges(fn, okv)
+					out = append(out, f...)
+				}
 			}
-			if len(e.To().Instrs) == 0 {
-				continue
-			}
-			if p := findPath(Point{e.To(), 0}, Target{Instr: pp}, cu); p != nil {
-				wit = p
-			}
-		}
-		n++
-		if wit == nil {
-			c.Ok(rule, fnName(put)+"#private=>putSecretExpr", "a private attribute on a keyed, non-encrypting stream always takes the putSecretExpr branch", pp.Pos())
-		} else {
-			c.Violate(rule, fnName(put)+"#private=>putSecretExpr", "a private attribute can reach the plain PutString although crypto-for-secret is available: its value is sent in the clear", pp.Pos(), c.describePath(wit)...)
 		}
 	}
-	c.MinCount(rule, "bracket obligations", n, 10)
+	return out
+}
+
+// c09Performs: every path from g's entry to each of its returns passes a stream call of the given kind
+// (PREP/REST), an edge on which that call's receiver is absent, or a call of a helper that performs it.
+func c09Performs(w *wireAnchors, g *ssa.Function, kind string, depth int, active map[*ssa.Function]bool) bool {
+	if g == nil || g.Blocks == nil || depth < 0 || active[g] {
+		return false
+	}
+	if pk := fnPkg(g); pk == nil || !inModule(pk.Path()) {
+		return false
+	}
+	active[g] = true
+	defer delete(active, g)
+	cuts := newCuts()
+	n := 0
+	allInstrs(g, func(_ *ssa.BasicBlock, _ int, in ssa.Instruction) {
+		call, ok := in.(*ssa.Call)
+		if !ok {
+			return
+		}
+		if w.streamCall(call) == kind {
+			n++
+			cuts.AddInstrs(call)
+			cuts.AddEdges(c09NoToggleEdges(g, call)...)
+			return
+		}
+		if h := calleeFn(call); h != nil && c09Performs(w, h, kind, depth-1, active) {
+			n++
+			cuts.AddInstrs(call)
+		}
+	})
+	if n == 0 {
+		return false
+	}
+	for _, b := range g.Blocks {
+		if len(b.Instrs) == 0 {
+			continue
+		}
+		if ret, ok := b.Instrs[len(b.Instrs)-1].(*ssa.Return); ok {
+			if findPath(entryPoint(g), Target{Instr: ret}, cuts) != nil {
+				return false
+			}
+		}
+	}
+	return true
 }
 
 // ---------------------------------------------------------------------------
@@ -1222,27 +1736,31 @@ func c09r5(c *Ctx) {
 func c09r6(c *Ctx) {
 	const rule = "C09-R6"
 	defer c08RuleTimer(rule)()
-	c.Doc(rule, "finite table over (gcm nil/non-nil, encrypted false/true) by folding the SSA of the stream's toggle: after prepareCryptoForSecret encrypted is (encrypted || gcm != nil) -- never true without a key; restoreCryptoAfterSecret run on the state prepare left puts encrypted back to its original value; CryptoForSecretIsNoop is gcm == nil || encrypted; the exported Prepare/Restore wrappers only delegate (fields other than gcm/encrypted start unknown, every folded path must satisfy the table)")
+	c.Doc(rule, "finite table over (gcm nil/non-nil, encrypted false/true) by folding the SSA of the stream's exported toggle PrepareCryptoForSecret / RestoreCryptoAfterSecret / CryptoForSecretIsNoop together with the same-module functions they call (explored in place, stores kept): after Prepare encrypted is (encrypted || gcm != nil) -- never true without a key; Restore run on the state Prepare left puts encrypted back to its original value; CryptoForSecretIsNoop is gcm == nil || encrypted (fields other than gcm/encrypted start unknown, every folded path must satisfy the table)")
 	gcm := c.needField(rule, "stream", "Stream", "gcm")
 	enc := c.needField(rule, "stream", "Stream", "encrypted")
-	prep := c.needFn(rule, "stream", "(*Stream).prepareCryptoForSecret")
-	rest := c.needFn(rule, "stream", "(*Stream).restoreCryptoAfterSecret")
 	noop := c.needFn(rule, "stream", "(*Stream).CryptoForSecretIsNoop")
-	pubPrep := c.needFn(rule, "stream", "(*Stream).PrepareCryptoForSecret")
-	pubRest := c.needFn(rule, "stream", "(*Stream).RestoreCryptoAfterSecret")
-	if gcm == nil || enc == nil || prep == nil || rest == nil || noop == nil || pubPrep == nil || pubRest == nil {
+	prep := c.needFn(rule, "stream", "(*Stream).PrepareCryptoForSecret")
+	rest := c.needFn(rule, "stream", "(*Stream).RestoreCryptoAfterSecret")
+	if gcm == nil || enc == nil || prep == nil || rest == nil || noop == nil {
 		return
+	}
+	// the functions that implement the bracket: the exported pair and the unexported functions they delegate to
+	// today (also used by PutSecret/GetSecret), when those exist
+	bracket := fnSet(prep, rest)
+	for _, name := range []string{"(*Stream).prepareCryptoForSecret", "(*Stream).restoreCryptoAfterSecret"} {
+		if f := c.LookupFn("stream", name); f != nil && f.Blocks != nil {
+			bracket[f] = true
+		}
 	}
 	n := 0
 	// runOn folds fn on a stream object with the given fields; per explored path it returns the fields as
 	// they are at the return (initial values overridden by the stores on that path) and the first result.
 	runOn := func(fn *ssa.Function, fields map[*types.Var]aval) (finals []map[*types.Var]aval, rets []aval, overflow bool) {
 		obj := &aobj{Name: "stream", Fields: fields}
-		it := &ainterp{}
+		it := &ainterp{foldCallees: true}
 		it.oracle = func(_ *ssa.Function, v ssa.Value, _ []aval) (aval, bool) {
-			if _, ok := v.(*ssa.Call); ok {
-				return avU, true
-			}
+			// same-module callees (the unexported implementation, a shared guard, a setter) are explored in place
 			return avU, false
 		}
 		it.atReturn = func(_ *ssa.Function, _ *ssa.Return, res []aval, env *aenv) string {
@@ -1282,7 +1800,7 @@ func c09r6(c *Ctx) {
 			for _, a := range c.fieldAccesses(f) {
 				if a.Write {
 					nw++
-					if t := topFn(a.Fn); t != prep && t != rest {
+					if t := topFn(a.Fn); !bracket[t] && !c.onlyReachableFrom(t, bracket) {
 						okW = false
 					}
 				}
@@ -1308,27 +1826,27 @@ func c09r6(c *Ctx) {
 		}
 		fs, _, ov := runOn(prep, init())
 		if ov || len(fs) == 0 {
-			und = append(und, "prepareCryptoForSecret "+row)
+			und = append(und, "PrepareCryptoForSecret "+row)
 		}
 		for _, f := range fs {
 			n++
 			if f[enc].K != avBool {
-				und = append(und, "prepareCryptoForSecret "+row)
+				und = append(und, "PrepareCryptoForSecret "+row)
 				continue
 			}
 			if f[enc].B != (e || hasKey) {
-				bad = append(bad, fmt.Sprintf("prepareCryptoForSecret %s: leaves encrypted=%v, required %v", row, f[enc].B, e || hasKey))
+				bad = append(bad, fmt.Sprintf("PrepareCryptoForSecret %s: leaves encrypted=%v, required %v", row, f[enc].B, e || hasKey))
 			}
 			// restore on the state prepare left
 			f[gcm] = g
 			rs, _, ov2 := runOn(rest, f)
 			if ov2 || len(rs) == 0 {
-				und = append(und, "restoreCryptoAfterSecret after prepare "+row)
+				und = append(und, "RestoreCryptoAfterSecret after Prepare "+row)
 			}
 			for _, r := range rs {
 				n++
 				if r[enc].K != avBool {
-					und = append(und, "restoreCryptoAfterSecret after prepare "+row)
+					und = append(und, "RestoreCryptoAfterSecret after Prepare "+row)
 					continue
 				}
 				if r[enc].B != e {
@@ -1364,27 +1882,7 @@ func c09r6(c *Ctx) {
 	default:
 		c.Ok(rule, "stream-toggle-table", "prepare, prepare+restore and is-noop fold to the stated table on all 4 rows", prep.Pos())
 	}
-	// wrappers only delegate
-	for _, p := range []struct{ pub, inner *ssa.Function }{{pubPrep, prep}, {pubRest, rest}} {
-		calls := 0
-		other := 0
-		allInstrs(p.pub, func(_ *ssa.BasicBlock, _ int, in ssa.Instruction) {
-			switch x := in.(type) {
-			case ssa.CallInstruction:
-				if calleeFn(x) == p.inner && len(x.Common().Args) == 1 && x.Common().Args[0] == ssa.Value(p.pub.Params[0]) {
-					calls++
-				} else {
-					other++
-				}
-			case *ssa.Store:
-				other++
-			}
-		})
-		n++
-		c.Check(calls == 1 && other == 0 && len(p.pub.Blocks) == 1, rule, fnName(p.pub)+"#delegates", "only delegates to "+p.inner.Name(),
-			fnName(p.pub)+" does more (or less) than delegate to "+p.inner.Name()+" on its receiver", p.pub.Pos())
-	}
-	c.MinCount(rule, "toggle rows and wrappers", n, 14)
+	c.MinCount(rule, "toggle rows", n, 12)
 }
 
 // ---------------------------------------------------------------------------
@@ -1404,8 +1902,7 @@ func c09r7(c *Ctx) {
 		if fn == nil {
 			continue
 		}
-		exp := wSeq(wLit("INT"), wStar(recvBodyL()), wLit("STR"), wLit("STR"))
-		c08CompareLayout(c, rule, w, fn, exp, recvLayoutText, nil)
+		c08CompareLayout(c, rule, w, fn, recvLayout(true), recvLayoutText, nil)
 		n++
 	}
 	// the bracket is not optional when the stream has the toggle: Prepare precedes the secret read in getSecretString-like helpers
